@@ -486,7 +486,7 @@ Definition compute_c05 (handlers : list hspec) (hs : list N) (r : request) (ok :
 Inductive fop := FOp (o : op) | FDump (r : request) | FPark (r : request) | FRelease.
 Definition d_fop (x : xval) : option fop :=
   match x with
-  | XL [XN 4; XB t] => Some (FDump (d_request 0 (B "GET") t []))
+  | XL [XN 4; XB t] | XL [XN 4; XB t; XN _] => Some (FDump (d_request 0 (B "GET") t []))   (* the number: for the harness *)
   | XL [XN 5; XN addr; XB m; XB t; hs; XB _] =>
       option_map (fun h => FPark (d_request addr m t h)) (d_list d_pair_bb hs)
   | XL [XN 6] => Some FRelease
